@@ -601,3 +601,5 @@ def run(ctx):
     r = ctx.rule("R6j", "gradient rand / mix: the value lane of the native clauses (x86_64 and aarch64) is the hash term of fidget_core::rng", 4)
     for arch in ("x86_64", "aarch64"):
         ctx.guarded(r, HS.check_hash_terms, arch, "grad_slice")
+    r = ctx.rule("R6k", "the gradient assembler's magic constants (rounding bias, sign masks, hash constants) agree by value with its sibling assemblers'", 5)
+    ctx.guarded(r, AC.check_magic_constants, focus="grad_slice")
